@@ -280,7 +280,36 @@ _SEMANTIC = re.compile(r'postcondition not satisfied|precondition not satisfied|
                        r'loop invariant not preserved|unreachable|possible bit shift', re.I)
 
 
-def run_verus(u):
+def _verus_vacuity_probe(u, r, d, env):
+    """Thorough tier: re-extract with `assert(false)` at the top of every extracted function; every one of them must
+    fail. A probe that verifies means a contradictory precondition / axiom set: the unit is reported undecided."""
+    from . import vx
+    try:
+        vx.PROBE = True
+        text, fns, _ = u.build()
+    except Exception as e:  # noqa: BLE001
+        r.extra['vacuity_probe'] = f'not run: {e}'
+        return
+    finally:
+        vx.PROBE = False
+    path = os.path.join(d, u.name + '_probe.rs')
+    open(path, 'w').write(text)
+    n = len(fns)
+    try:
+        p = subprocess.run(['verus', path, '--output-json', '--multiple-errors', str(4 * n + 8)], cwd=d,
+                           stdout=subprocess.PIPE, stderr=subprocess.PIPE, text=True, timeout=900, env=env)
+        data = json.loads(p.stdout[p.stdout.index('{'):])
+    except Exception as e:  # noqa: BLE001
+        r.extra['vacuity_probe'] = f'not run: {e}'
+        return
+    failed_asserts = len(re.findall(r'(?m)^error: assertion failed', p.stderr))
+    r.extra['vacuity_probe'] = f'{failed_asserts} of {n} entry probes refuted (all must be)'
+    if failed_asserts < n:
+        r.verdict, r.reason = UNDEC, (f'vacuity probe: only {failed_asserts} of {n} `assert(false)` entry probes were refuted — '
+                                      'a precondition or the admitted axioms are contradictory')
+
+
+def run_verus(u, tier='quick'):
     r = Result(u)
     r.backend = 'Z3 (via Verus 0.2026.09.13)'
     t0 = time.time()
@@ -338,6 +367,8 @@ def run_verus(u):
             r.verdict, r.reason = UNDEC, f'vacuity guard: only {verified} functions verified (< {u.min_verified})'
         else:
             r.verdict = PASS
+            if tier == 'thorough':
+                _verus_vacuity_probe(u, r, d, env)
         return r
     sem = [b for b in blocks if _SEMANTIC.search(b.split('\n', 1)[0])]
     other = [b for b in blocks if b not in sem]
@@ -443,7 +474,7 @@ def run_property(spec, tier, seed=0, jobs=4):
     verus_units = [u for u in units if u.engine == 'verus']
     results = []
     for u in verus_units:
-        results.append(run_verus(u))
+        results.append(run_verus(u, tier))
     groups = {}
     for u in kani_units:
         groups.setdefault(u.group_key(), []).append(u)
